@@ -122,6 +122,14 @@ def from_ast(n):
 
 class FakeAnalysis:
     is_method = False
+    # a declaration order of the keyword-only parameters that differs from the order at most call sites
+    keyword_required = ["w"]
+    keyword_optional = ["tag", "k"]
+    strict_positional_required = []
+    strict_positional_optional = []
+    positional_required = []
+    positional_optional = []
+    complex_transforms = set()
 
     def lookup_for(self, key):
         return type
@@ -156,10 +164,12 @@ def run(seed, n):
         except Exception as ex:  # noqa: e.g. UsageError for a bare call_next
             r = ["error", type(ex).__name__]
             stats["error"] += 1
+            if type(ex).__name__ not in ("UsageError",):
+                stats.setdefault("unexpected", []).append({"layer": "H", "what": "the rewriter raised on an expression of the modelled subset", "error": f"{type(ex).__name__}: {ex}"[:200], "src": to_src(e)})
         exprs.append(e)
         reals.append(r)
     res = run_driver([{"layer": "H", "exprs": exprs}])[0]
-    diffs = []
+    diffs = list(stats.pop("unexpected", []))[:3]
     if "error" in res:
         return stats, [{"kind": "driver-error", "detail": res["error"]}]
     for e, r, m in zip(exprs, reals, res["rw"]):
